@@ -6,7 +6,7 @@ import RichModel.Drv.Proto
   cfg    = `kind,W,H,record,transient,overflow,stopTailUnlocked`   kind 0 none / 1 live / 2 progress ; overflow 0 crop / 1 ellipsis / 2 visible
   init   = line list `n:l1,l2,…` : live = lines of the initial renderable, progress = task descriptions
   progs  = thread programs joined by `/`, operations joined by `|` :
-           `P<lines>`  `K<lines>#<lines>…`  `N<lines>#<lines>#<lines>`  `U<refresh>;<lines>`  `R`  `S`  `X`  `V<id>;<n>`  `E<clear><mode>` (mode t / s / h)
+           `P<lines>`  `K<lines>#<lines>…`  `N<lines>#<lines>#<lines>`  `U<refresh>;<lines>`  `R`  `S`  `X`  `V<id>;<n>`  `E<clear><mode>` (mode t / s / h)  `W<lines>` (FileProxy.write completing these lines)
   events = `tid:code` joined by `,` — the shared accesses in the order they happened on real rich; codes
            aL rL aC rC aR rR (outermost lock operations)  hr h+ h-  ce cr cd  ps rs rr ws sr  w
   answer = `ok#<observable of every event, joined by ;>#<captures>#<export_text>#<shape>#<hooks>#<started>`
@@ -61,6 +61,7 @@ def decOp1 (s : String) : Option Op :=
   | ['S'] => some .start
   | ['X'] => some .stop
   | 'P' :: r => some (.print (decStrList (String.ofList r)))
+  | 'W' :: r => some (.proxyPrint (decStrList (String.ofList r)))
   | ['E', c, _] => some (.export (c == '1'))
   | 'N' :: r =>
     match ((String.ofList r).splitOn "#").map decStrList with
